@@ -113,20 +113,22 @@ theorem widen_uv {α} (t : ATag) (xs : List Val) (fs : List (Val → Res Val)) (
   | err cs =>
     simp only [widen]
     split
-    · show Cat.undefinedVariable ∉ _
-      intro hm
-      have hm := uv_mem_dedup hm
-      simp only [List.mem_append, List.mem_flatMap] at hm
-      rcases hm with (hm | hm) | ⟨x, _, f, hf, hm⟩
-      · exact h hm
-      · exact he hm
-      · have := hfs f hf x
-        cases hfx : f x with
-        | err c => rw [hfx] at hm this; exact this hm
-        | ok a => rw [hfx] at hm; cases hm
-        | panic w => rw [hfx] at hm; cases hm
-        | nondet => rw [hfx] at hm; cases hm
-        | unmodelled w => rw [hfx] at hm; cases hm
+    · split
+      · trivial
+      · show Cat.undefinedVariable ∉ _
+        intro hm
+        have hm := uv_mem_dedup hm
+        simp only [List.mem_append, List.mem_flatMap] at hm
+        rcases hm with (hm | hm) | ⟨x, _, f, hf, hm⟩
+        · exact h hm
+        · exact he hm
+        · have := hfs f hf x
+          cases hfx : f x with
+          | err c => rw [hfx] at hm this; exact this hm
+          | ok a => rw [hfx] at hm; cases hm
+          | panic w => rw [hfx] at hm; cases hm
+          | nondet => rw [hfx] at hm; cases hm
+          | unmodelled w => rw [hfx] at hm; cases hm
     · exact h
   | ok a => exact h
   | panic w => exact h
